@@ -16,6 +16,7 @@ NEEDS = {
  "C06-a-forward-move-tuple-compare": "an if with an else branch, a move-based primitive whose destination gap is directly in the then-branch, and a cursor held in the else-branch",
  "C06-b-forward-move-attr": "an if with a non-empty else, a move into one branch, a cursor in the other branch at or after the destination index",
  "C07-a-unroll-buffer-idx-alias": "unroll_buffer on a buffer that is windowed with a constant point in the unrolled dimension (call argument / window statement); the ORIGINAL procedure is then corrupted, also when the call fails half-way",
+ "C07-b-resize-dim-window-alias": "resize_dim (fold=False) on a buffer used through a window expression; the ORIGINAL procedure's window offsets are shifted in place, also when the call is rejected by its final bounds check",
  "C08-a-window-of-window-free": "an allocated buffer, a window of a window of it in the same scope, the buffer's last use only through the inner window",
  "C09-a-par-config-race": "a parallel loop whose body writes a configuration field with a loop-invariant value",
  "C10-a-globenv-loop-first-iter": "a configuration write inside a loop that runs exactly once, followed by a configuration rewrite whose soundness depends on the value after the loop",
@@ -37,6 +38,7 @@ STRENGTHENED = {
  "C03-a-chain-window-add-zero": "front-end family FE6 (window chains)",
  "C05-a-unify-cmp-ops": "seed call/guards",
  "C07-a-unroll-buffer-idx-alias": "seed alloc/unroll_buf_win",
+ "C07-b-resize-dim-window-alias": "seed alloc/unroll_buf_win (added for C07-a)",
  "C08-a-window-of-window-free": "back-end family F10c (window chains over allocations)",
  "C02-b-win-base-chain": "back-end family F10c (window chains over allocations)",
  "C10-a-globenv-loop-first-iter": "generated configuration-dataflow family cfggen",
